@@ -17,7 +17,7 @@ RULE = ("(1) every runtime block of ET/DT/ES (both Modbus framings; ES blocks of
         "style / field index, outcome class) tuples")
 ASSUMPTIONS = ["DT.read_settings_data() is outside the property's wording (it names ET and ES for the bulk settings read)",
                "a key may map to None; the key set must contain every id of the covered sensors/settings"]
-MUST = ["blocks_decoded", "none_values_seen", "valueerror_paths_seen", "field_sweeps", "end_to_end_runtime",
+MUST = ["single_reads_after_capability_change", "blocks_decoded", "none_values_seen", "valueerror_paths_seen", "field_sweeps", "end_to_end_runtime",
         "end_to_end_settings", "single_reads", "es_short_blocks"]
 EXHAUSTIVE = {"quick": False, "thorough": True}
 
@@ -176,6 +176,17 @@ def e2e_part(spec, part):
                     singles.append((sid, "ok"))
                 except ValueError:
                     singles.append((sid, "ValueError"))
+            if fam == "ET" and out["rt"].get("battery_mode"):
+                listed = [x.id_ for x in inv.sensors() if x.id_.startswith("battery")]
+                sim.regs[35184] = 0             # the battery drops out; the ids are still listed until the next poll
+                rnd.shuffle(listed)
+                for sid in listed[:6]:
+                    try:
+                        await inv.read_sensor(sid)
+                        singles.append((sid, "ok"))
+                    except ValueError:
+                        singles.append((sid, "ValueError"))
+                part.count("single_reads_after_capability_change")
             out["singles"] = singles
 
         run = engine.run_custom({("inv0", port): sim}, flow, vtime_cap=3000, tx_cap=3000)
